@@ -31,7 +31,10 @@ Qed.
 Lemma member_ok_erase objs ik f inl m :
   member_ok (erase_tab objs) ik f inl (erase m) = member_ok objs ik f inl m.
 Proof.
-  unfold member_ok. rewrite member_props_erase. destruct (member_props objs m) as [ps|]; [|reflexivity].
+  unfold member_ok.
+  replace (member_pending (erase m)) with (member_pending m) by (destruct m; reflexivity).
+  f_equal.
+  rewrite member_props_erase. destruct (member_props objs m) as [ps|]; [|reflexivity].
   cbn [option_map]. rewrite alookup_erase_props. destruct (alookup f ps) as [p|]; [|reflexivity].
   cbn [option_map]. destruct p. cbn [erase_prop snd Syntax.p_type]. rewrite disc_kind_erase. reflexivity.
 Qed.
